@@ -181,3 +181,184 @@ type Int64 struct{ v int64 }
 func (i *Int64) Load() int64       { return LoadInt64(&i.v) }
 func (i *Int64) Store(x int64)     { StoreInt64(&i.v, x) }
 func (i *Int64) Add(d int64) int64 { return AddInt64(&i.v, d) }
+
+// ---- the rest of the sync/atomic API, so that code that starts using it still builds and is scheduled
+
+func SwapInt64(addr *int64, v int64) int64 {
+	vsched.Yield("SwapInt64")
+	o := atomic.SwapInt64(addr, v)
+	vsched.Record("SwapInt64", tag(unsafe.Pointer(addr)), uint64(o), true)
+	return o
+}
+func AddUintptr(addr *uintptr, delta uintptr) uintptr {
+	vsched.Yield("AddUintptr")
+	v := atomic.AddUintptr(addr, delta)
+	vsched.Record("AddUintptr", tag(unsafe.Pointer(addr)), uint64(v), true)
+	return v
+}
+func LoadUintptr(addr *uintptr) uintptr {
+	vsched.Yield("LoadUintptr")
+	v := atomic.LoadUintptr(addr)
+	vsched.Record("LoadUintptr", tag(unsafe.Pointer(addr)), uint64(v), true)
+	return v
+}
+func StoreUintptr(addr *uintptr, v uintptr) {
+	vsched.Yield("StoreUintptr")
+	atomic.StoreUintptr(addr, v)
+	vsched.Record("StoreUintptr", tag(unsafe.Pointer(addr)), uint64(v), true)
+}
+func SwapUintptr(addr *uintptr, v uintptr) uintptr {
+	vsched.Yield("SwapUintptr")
+	o := atomic.SwapUintptr(addr, v)
+	vsched.Record("SwapUintptr", tag(unsafe.Pointer(addr)), uint64(o), true)
+	return o
+}
+func CompareAndSwapUintptr(addr *uintptr, old, new uintptr) bool {
+	vsched.Yield("CASUintptr")
+	ok := atomic.CompareAndSwapUintptr(addr, old, new)
+	vsched.Record("CASUintptr", tag(unsafe.Pointer(addr)), uint64(new), ok)
+	return ok
+}
+func AndInt32(addr *int32, mask int32) int32 {
+	vsched.Yield("AndInt32")
+	o := atomic.AndInt32(addr, mask)
+	vsched.Record("AndInt32", tag(unsafe.Pointer(addr)), uint64(o), true)
+	return o
+}
+func AndUint32(addr *uint32, mask uint32) uint32 {
+	vsched.Yield("AndUint32")
+	o := atomic.AndUint32(addr, mask)
+	vsched.Record("AndUint32", tag(unsafe.Pointer(addr)), uint64(o), true)
+	return o
+}
+func AndInt64(addr *int64, mask int64) int64 {
+	vsched.Yield("AndInt64")
+	o := atomic.AndInt64(addr, mask)
+	vsched.Record("AndInt64", tag(unsafe.Pointer(addr)), uint64(o), true)
+	return o
+}
+func AndUint64(addr *uint64, mask uint64) uint64 {
+	vsched.Yield("AndUint64")
+	o := atomic.AndUint64(addr, mask)
+	vsched.Record("AndUint64", tag(unsafe.Pointer(addr)), o, true)
+	return o
+}
+func OrInt32(addr *int32, mask int32) int32 {
+	vsched.Yield("OrInt32")
+	o := atomic.OrInt32(addr, mask)
+	vsched.Record("OrInt32", tag(unsafe.Pointer(addr)), uint64(o), true)
+	return o
+}
+func OrUint32(addr *uint32, mask uint32) uint32 {
+	vsched.Yield("OrUint32")
+	o := atomic.OrUint32(addr, mask)
+	vsched.Record("OrUint32", tag(unsafe.Pointer(addr)), uint64(o), true)
+	return o
+}
+func OrInt64(addr *int64, mask int64) int64 {
+	vsched.Yield("OrInt64")
+	o := atomic.OrInt64(addr, mask)
+	vsched.Record("OrInt64", tag(unsafe.Pointer(addr)), uint64(o), true)
+	return o
+}
+func OrUint64(addr *uint64, mask uint64) uint64 {
+	vsched.Yield("OrUint64")
+	o := atomic.OrUint64(addr, mask)
+	vsched.Record("OrUint64", tag(unsafe.Pointer(addr)), o, true)
+	return o
+}
+
+func (b *Bool) Swap(x bool) bool {
+	var i int32
+	if x {
+		i = 1
+	}
+	return SwapInt32(&b.v, i) != 0
+}
+func (b *Bool) CompareAndSwap(o, n bool) bool {
+	var oi, ni int32
+	if o {
+		oi = 1
+	}
+	if n {
+		ni = 1
+	}
+	return CompareAndSwapInt32(&b.v, oi, ni)
+}
+func (i *Int32) Swap(x int32) int32               { return SwapInt32(&i.v, x) }
+func (i *Int32) And(m int32) int32                { return AndInt32(&i.v, m) }
+func (i *Int32) Or(m int32) int32                 { return OrInt32(&i.v, m) }
+func (i *Uint32) Swap(x uint32) uint32            { return SwapUint32(&i.v, x) }
+func (i *Uint32) CompareAndSwap(o, n uint32) bool { return CompareAndSwapUint32(&i.v, o, n) }
+func (i *Uint32) And(m uint32) uint32             { return AndUint32(&i.v, m) }
+func (i *Uint32) Or(m uint32) uint32              { return OrUint32(&i.v, m) }
+func (i *Uint64) Swap(x uint64) uint64            { return SwapUint64(&i.v, x) }
+func (i *Uint64) CompareAndSwap(o, n uint64) bool { return CompareAndSwapUint64(&i.v, o, n) }
+func (i *Uint64) And(m uint64) uint64             { return AndUint64(&i.v, m) }
+func (i *Uint64) Or(m uint64) uint64              { return OrUint64(&i.v, m) }
+func (i *Int64) Swap(x int64) int64               { return SwapInt64(&i.v, x) }
+func (i *Int64) CompareAndSwap(o, n int64) bool   { return CompareAndSwapInt64(&i.v, o, n) }
+func (i *Int64) And(m int64) int64                { return AndInt64(&i.v, m) }
+func (i *Int64) Or(m int64) int64                 { return OrInt64(&i.v, m) }
+
+type Uintptr struct{ v uintptr }
+
+func (i *Uintptr) Load() uintptr                    { return LoadUintptr(&i.v) }
+func (i *Uintptr) Store(x uintptr)                  { StoreUintptr(&i.v, x) }
+func (i *Uintptr) Add(d uintptr) uintptr            { return AddUintptr(&i.v, d) }
+func (i *Uintptr) Swap(x uintptr) uintptr           { return SwapUintptr(&i.v, x) }
+func (i *Uintptr) CompareAndSwap(o, n uintptr) bool { return CompareAndSwapUintptr(&i.v, o, n) }
+
+// Pointer mirrors atomic.Pointer[T].
+type Pointer[T any] struct{ p atomic.Pointer[T] }
+
+func (x *Pointer[T]) Load() *T {
+	vsched.Yield("Pointer.Load")
+	v := x.p.Load()
+	vsched.Record("Pointer.Load", tag(unsafe.Pointer(x)), tag(unsafe.Pointer(v)), true)
+	return v
+}
+func (x *Pointer[T]) Store(v *T) {
+	vsched.Yield("Pointer.Store")
+	x.p.Store(v)
+	vsched.Record("Pointer.Store", tag(unsafe.Pointer(x)), tag(unsafe.Pointer(v)), true)
+}
+func (x *Pointer[T]) Swap(v *T) *T {
+	vsched.Yield("Pointer.Swap")
+	o := x.p.Swap(v)
+	vsched.Record("Pointer.Swap", tag(unsafe.Pointer(x)), tag(unsafe.Pointer(o)), true)
+	return o
+}
+func (x *Pointer[T]) CompareAndSwap(o, n *T) bool {
+	vsched.Yield("Pointer.CAS")
+	ok := x.p.CompareAndSwap(o, n)
+	vsched.Record("Pointer.CAS", tag(unsafe.Pointer(x)), tag(unsafe.Pointer(n)), ok)
+	return ok
+}
+
+// Value mirrors atomic.Value.
+type Value struct{ v atomic.Value }
+
+func (x *Value) Load() interface{} {
+	vsched.Yield("Value.Load")
+	v := x.v.Load()
+	vsched.Record("Value.Load", tag(unsafe.Pointer(x)), 0, true)
+	return v
+}
+func (x *Value) Store(v interface{}) {
+	vsched.Yield("Value.Store")
+	x.v.Store(v)
+	vsched.Record("Value.Store", tag(unsafe.Pointer(x)), 0, true)
+}
+func (x *Value) Swap(v interface{}) interface{} {
+	vsched.Yield("Value.Swap")
+	o := x.v.Swap(v)
+	vsched.Record("Value.Swap", tag(unsafe.Pointer(x)), 0, true)
+	return o
+}
+func (x *Value) CompareAndSwap(o, n interface{}) bool {
+	vsched.Yield("Value.CAS")
+	ok := x.v.CompareAndSwap(o, n)
+	vsched.Record("Value.CAS", tag(unsafe.Pointer(x)), 0, ok)
+	return ok
+}
